@@ -362,20 +362,30 @@ func irisEqual(i1, i2 IRI, checkScheme bool) bool {
 		if !ok {
 			return false
 		}
-		if len(uqv) != len(uwqv) {
+		if !sameValues(uqv, uwqv) {
 			return false
 		}
-		for _, uqvv := range uqv {
-			eq := false
-			for _, uwqvv := range uwqv {
-				if uwqvv == uqvv {
-					eq = true
-					continue
-				}
+	}
+	return true
+}
+
+// sameValues checks that the two lists hold the same values the same number of times, in any order.
+func sameValues(v1, v2 []string) bool {
+	if len(v1) != len(v2) {
+		return false
+	}
+	used := make([]bool, len(v2))
+	for _, vv1 := range v1 {
+		found := false
+		for k, vv2 := range v2 {
+			if !used[k] && vv1 == vv2 {
+				used[k] = true
+				found = true
+				break
 			}
-			if !eq {
-				return false
-			}
+		}
+		if !found {
+			return false
 		}
 	}
 	return true
